@@ -17,7 +17,7 @@ from .. import env, coq, runner, gates, tables, opsem, circuits as gcirc, mcircu
 
 LEVEL = 'translation_validation'
 META = dict(
-    text='Translation validation with proven components. Coq theorems: the trace-equivalence validator run on the real output of every "move, never change" transformer is sound AND complete (it accepts exactly the reorderings obtained by exchanging adjacent operations that share no qubit, no measurement key and no measured/controlling key pair), the projection lemma, trace-equivalent operation lists compute the same tensor for every ring, rank and input and keep every per-key measurement order; every constant gauge emitted by the gauge-compiling transformers satisfies (post0 x post1) . G\' . (pre0 x pre1) = c . G with |c| = 1 exactly in Q(zeta_8) (float instance to 2^-30 where entries are outside the field) and every dynamical-decoupling base sequence multiplies to a scalar; the phase-tracking loop of eject_z keeps the invariant Phi(tracked phases) . emitted = original prefix and emits an equal circuit for every denotation satisfying the commutation laws, including the PhasedXZ bookkeeping (the gate is emitted with z exponent 0, its z part joins the tracked phase, every operation forgets the marks of its qubits, the final phase of a qubit whose last operation is still that gate is written into it: equal to appending the Z gate because Z rotations commute with operations on other qubits; writing into a gate that is followed by another operation on its qubit is refuted by a 2x2 integer witness). A Pauli-basis measurement enters the reference semantics through its signed observable s.P as the keyed pair [(I+sP)/2; (I-sP)/2], proven (exactly, all strings of length <= 3, both signs) to be the complementary orthogonal self-adjoint idempotent resolution of s.P. On every run each exported transformer x options (tags_to_ignore, deep, tolerances, strategies) is executed on generated circuits (unitary, measured, classically controlled, tagged, nested, parameterised; measurement-like operations that are not a MeasurementGate: Pauli-basis measurements and keyed channels; circuits over few gates in many placements) and on two fixed grids (every kind of phase / flip in front of Pauli-basis measurements and keyed channels, for every transformer that accepts measurements; every overlapping placement of gate pairs whose commutation depends on the placement, for the commutation-based sorter; with tags_to_ignore set, an operation carrying the ignored tag - diagonal or not, one or two qubits, a measurement, a negligible gate - between phases / flips / mergeable gates and the measurements of the same qubits, for every transformer that takes tags_to_ignore; measurements that are last on their qubits but whose record a later classically controlled operation consumes, for every transformer that accepts measurements; a holder (general PhasedXZ gate, PhasedXZ / PhasedX flip) followed by an operation nothing can be carried across (every swap-like gate, sub-circuits, operations with the ignored tag, a classically controlled operation), then a phase or flip, then the end of the circuit / an opaque gate / gates that take the phase, also one level down with deep=True, for the ejecting transformers; nested circuits (repeated, tagged, twice nested sub-circuits holding empty moments, phases, mergeable, composite and negligible gates, a measurement) passed as a mutable cirq.Circuit with deep=True to every transformer that accepts sub-circuits) and its output is compared with its input inside Coq through the reference semantics: same unitary up to global phase, or same joint distribution of per-key measurement records with the same conditional state on the qubits that are not terminally measured; defer/dephase/drop_terminal_measurements, lightcone_filter and the symbolized merge under their documented contracts; every branch of every gauge selector is enumerated with a scripted prng through both entry points (the one-shot call and as_sweep resolved with its sweep point) on the canonical target gates and on every other representation of them that the transformer\'s own target accepts (exponent shifted by whole periods in both directions, global shift, parent class); an output that reads a measurement key it does not record first (while the input does) is not executable and is reported; the eject_z model is compared with the real transformer on drawn operation lists over its alphabet (Z, PhasedXZ, phaseable gates, swap-like gates, measurements, opaque operations: phase_by undefined, Pauli-basis measurement, ignored tag, sub-circuit) and on a fixed grid (PhasedXZ; one operation of every kind; phase; every kind of tail), each real output also judged by the reference semantics; map_moments with map functions that change the circuit (one operation per moment: trace validated; a phase layer behind every moment: compared with the circuit built from the specification of the primitive); IdleMomentsGauge (exported by the gauge_compiling sub-package only; its exports are frozen too): a model of the transformer in the shape of the code (windows from the active moments of each qubit, G merged after the gate that opens the window, G^-1 merged before the gate that closes it) is proven to keep the operator of the circuit up to the central scalar G^-1 . G for every window whose inner moments are free and whose ends are free or mergeable, for every denotation in a monoid in which the single-qubit gates of a qubit commute with what the other qubits do, and the variant that merges the inverse after the closing gate is refuted; on every run the transformer is executed through a scripted numpy Generator on fixed shapes (one idle window opened / closed by non-Pauli gates H, T, X**0.5, a general PhasedXZ, by Paulis, tagged gates, two-qubit gates, operations and moments carrying the ignored tag, the beginning / end of the circuit, one-moment windows, windows sharing a gate, windows on two qubits, windows next to measurements / channels) with every window taking every index of the gauge tuple for gauges = pauli, clifford, inv_clifford and a custom tuple, and on generated sparse circuits with random draws; each run is compared with its input through the reference semantics and with the model run on the same draws (windows decided sound inside Coq), and gauges / gauges_inverse are checked to be inverse pairs; ignored-tag operations untouched, sub-circuits untouched unless deep, argument unchanged.',
+    text='Translation validation with proven components. Coq theorems: the trace-equivalence validator run on the real output of every "move, never change" transformer is sound AND complete (it accepts exactly the reorderings obtained by exchanging adjacent operations that share no qubit, no measurement key and no measured/controlling key pair), the projection lemma, trace-equivalent operation lists compute the same tensor for every ring, rank and input and keep every per-key measurement order; every constant gauge emitted by the gauge-compiling transformers satisfies (post0 x post1) . G\' . (pre0 x pre1) = c . G with |c| = 1 exactly in Q(zeta_8) (float instance to 2^-30 where entries are outside the field) and every dynamical-decoupling base sequence multiplies to a scalar; the phase-tracking loop of eject_z keeps the invariant Phi(tracked phases) . emitted = original prefix and emits an equal circuit for every denotation satisfying the commutation laws, including the PhasedXZ bookkeeping (the gate is emitted with z exponent 0, its z part joins the tracked phase, every operation forgets the marks of its qubits, the final phase of a qubit whose last operation is still that gate is written into it: equal to appending the Z gate because Z rotations commute with operations on other qubits; writing into a gate that is followed by another operation on its qubit is refuted by a 2x2 integer witness). A Pauli-basis measurement enters the reference semantics through its signed observable s.P as the keyed pair [(I+sP)/2; (I-sP)/2], proven (exactly, all strings of length <= 3, both signs) to be the complementary orthogonal self-adjoint idempotent resolution of s.P. On every run each exported transformer x options (tags_to_ignore, deep, tolerances, strategies) is executed on generated circuits (unitary, measured, classically controlled, tagged, nested, parameterised; measurement-like operations that are not a MeasurementGate: Pauli-basis measurements and keyed channels; circuits over few gates in many placements) and on two fixed grids (every kind of phase / flip in front of Pauli-basis measurements and keyed channels, for every transformer that accepts measurements; every overlapping placement of gate pairs whose commutation depends on the placement, for the commutation-based sorter; with tags_to_ignore set, an operation carrying the ignored tag - diagonal or not, one or two qubits, a measurement, a negligible gate - between phases / flips / mergeable gates and the measurements of the same qubits, for every transformer that takes tags_to_ignore; measurements that are last on their qubits but whose record a later classically controlled operation consumes, for every transformer that accepts measurements; a holder (general PhasedXZ gate, PhasedXZ / PhasedX flip) followed by an operation nothing can be carried across (every swap-like gate, sub-circuits, operations with the ignored tag, a classically controlled operation), then a phase or flip, then the end of the circuit / an opaque gate / gates that take the phase, also one level down with deep=True, for the ejecting transformers; nested circuits (repeated, tagged, twice nested sub-circuits holding empty moments, phases, mergeable, composite and negligible gates, a measurement) passed as a mutable cirq.Circuit with deep=True to every transformer that accepts sub-circuits; measurement keys that differ only by their path - sub-circuits measuring one key name on the same qubit mid-circuit, repeated with repetition ids, placed under different key paths, nested, next to the repeated key of that name without ids, with feed-forward inside and the record of one repetition read outside - for every transformer that accepts measurements and sub-circuits; for add_dynamical_decoupling a qubit idling 1-3 moments, then every two-qubit Clifford gate (both orientations) or a chain of two that carries the inserted pulse to another qubit, then there every kind of operation no Pauli passes: non-Clifford single-qubit gates, a non-Clifford two-qubit gate, a measurement, a classically controlled gate, for every schema, a custom sequence and both moment options) and its output is compared with its input inside Coq through the reference semantics: same unitary up to global phase, or same joint distribution of per-key measurement records with the same conditional state on the qubits that are not terminally measured; defer/dephase/drop_terminal_measurements, lightcone_filter and the symbolized merge under their documented contracts; every branch of every gauge selector is enumerated with a scripted prng through both entry points (the one-shot call and as_sweep resolved with its sweep point) on the canonical target gates and on every other representation of them that the transformer\'s own target accepts (exponent shifted by whole periods in both directions, global shift, parent class); an output that reads a measurement key it does not record first (while the input does) is not executable and is reported; the eject_z model is compared with the real transformer on drawn operation lists over its alphabet (Z, PhasedXZ, phaseable gates, swap-like gates, measurements, opaque operations: phase_by undefined, Pauli-basis measurement, ignored tag, sub-circuit) and on a fixed grid (PhasedXZ; one operation of every kind; phase; every kind of tail), each real output also judged by the reference semantics; map_moments with map functions that change the circuit (one operation per moment: trace validated; a phase layer behind every moment: compared with the circuit built from the specification of the primitive); IdleMomentsGauge (exported by the gauge_compiling sub-package only; its exports are frozen too): a model of the transformer in the shape of the code (windows from the active moments of each qubit, G merged after the gate that opens the window, G^-1 merged before the gate that closes it) is proven to keep the operator of the circuit up to the central scalar G^-1 . G for every window whose inner moments are free and whose ends are free or mergeable, for every denotation in a monoid in which the single-qubit gates of a qubit commute with what the other qubits do, and the variant that merges the inverse after the closing gate is refuted; on every run the transformer is executed through a scripted numpy Generator on fixed shapes (one idle window opened / closed by non-Pauli gates H, T, X**0.5, a general PhasedXZ, by Paulis, tagged gates, two-qubit gates, operations and moments carrying the ignored tag, the beginning / end of the circuit, one-moment windows, windows sharing a gate, windows on two qubits, windows next to measurements / channels) with every window taking every index of the gauge tuple for gauges = pauli, clifford, inv_clifford and a custom tuple, and on generated sparse circuits with random draws; each run is compared with its input through the reference semantics and with the model run on the same draws (windows decided sound inside Coq), and gauges / gauges_inverse are checked to be inverse pairs; ignored-tag operations untouched, sub-circuits untouched unless deep, argument unchanged.',
     note='Level translation_validation: the quantifier over programs is sampled for every rewriting pass; only the reorder-only family is decided by a theorem applied to each real output (and eject_z by a model theorem plus correspondence over a restricted alphabet). Trusted: Coq kernel (primitive floats for the float-instance theorem); float instance (tolerance 1e-6) for the numeric comparison; each operation\'s own cirq.unitary / cirq.kraus / measurement description (tied to the documented matrices by C03/C04/C09) and CircuitOperation.mapped_circuit for flattening (C12); Python adapters (operation identification by Cirq equality, resources through cirq.measurement_key_objs / cirq.control_keys, cirq.phase_by as the phased gate of the eject_z correspondence). Routing, target gatesets and analytical decompositions exported from the same package belong to C07/C15; map_clean_and_borrowable_qubits is not exercised; RandomizedMeasurements changes the measured basis by design.',
     technique='Rocq/Coq proof of a sound and complete trace-equivalence validator + exact gauge identities in Q(zeta_8) + model of the eject_z loop with its invariant + vm_compute translation validation of every transformer output against the reference semantics',
 )
@@ -189,7 +189,7 @@ def semantic_check(cirq, rng, ops_in, ops_out, contract='same'):
         kept_keys = {str(op.gate.key) for op in ops_out if isinstance(op.gate, cirq.MeasurementGate)}
         if any(str(op.gate.key) in kept_keys for op in dropped):
             raise opsem.Unsupported('drop_terminal_measurements: a repeated key is partly retained (ignored tag): record order is not defined by the contract')
-        ops_out = list(ops_out) + [cirq.MeasurementGate(len(op.qubits), key=op.gate.key, qid_shape=cirq.qid_shape(op)).on(*op.qubits) for op in dropped]
+        ops_out = list(ops_out) + [cirq.MeasurementGate(len(op.qubits), key=op.gate.mkey, qid_shape=cirq.qid_shape(op)).on(*op.qubits) for op in dropped]
         contract = 'same'
     qs_in = sorted({q for op in ops_in for q in op.qubits})
     extra = sorted({q for op in ops_out for q in op.qubits} - set(qs_in))
@@ -370,6 +370,20 @@ UNITARY_FAMS = ['XPow', 'YPow', 'ZPow', 'HPow', 'CZPow', 'CXPow', 'SwapPow', 'IS
                 'PhasedX', 'PhasedXZ', 'PhasedISwap', 'CCZPow', 'CCXPow', 'Matrix', 'Identity', 'GlobalPhase', 'CSwap', 'Diagonal']
 
 
+def keys_stay_inside(cirq, c, i, j):
+    """True iff the moments c[i:j] can be given a key path of their own without changing what the circuit reads: no later operation
+    reads a key measured in them, and every key read in them is measured in them in an earlier moment."""
+    inner = {str(k) for m in c[i:j] for op in m for k in cirq.measurement_key_objs(op)}
+    if any(inner & set(map(str, cirq.control_keys(op))) for m in c[j:] for op in m):
+        return False
+    have = set()
+    for m in c[i:j]:
+        if any(not set(map(str, cirq.control_keys(op))) <= have for op in m):
+            return False
+        have |= {str(k) for op in m for k in cirq.measurement_key_objs(op)}
+    return True
+
+
 def decorate(cirq, rng, c, tags=True, nest=True):
     """Random tags on operations; a random run of moments wrapped into a (possibly repeated / tagged) CircuitOperation."""
     if tags:
@@ -394,6 +408,9 @@ def decorate(cirq, rng, c, tags=True, nest=True):
             r = rng.random()
             if r < 0.25 and not cirq.measurement_key_objs(sub) and not cirq.control_keys(sub):
                 cop = cop.repeat(2)
+            elif r < 0.5 and cirq.measurement_key_objs(sub) and keys_stay_inside(cirq, c, i, j):
+                # the keys measured inside get a path: two repetitions with repetition ids ('0:a', '1:a'), or a key path prefix
+                cop = cop.repeat(2, use_repetition_ids=True) if r < 0.4 else cop.with_key_path((rng.choice('AB'),))
             tagsel = rng.random()
             top = cop.with_tags(IGN) if tagsel < 0.2 else (cop.with_tags(UNROLL) if tagsel < 0.55 else cop)
             c = cirq.Circuit(list(c[:i]) + [cirq.Moment([top])] + list(c[j:]))
@@ -773,6 +790,123 @@ def nested_grid(cirq):
     return [('repeated sub-circuit', n1, False, False), ('twice nested, tagged sub-circuits', n2, False, True), ('sub-circuit ending in a measurement', n3, True, False)]
 
 
+def dd_walls(cirq):
+    """single-qubit gates a Pauli cannot be pulled through (not Clifford): what add_dynamical_decoupling must merge the pulled Paulis in front of"""
+    return [('X**0.25', cirq.X ** 0.25), ('Y**-0.3', cirq.Y ** -0.3), ('T', cirq.T), ('PhXZ', cirq.PhasedXZGate(x_exponent=0.3, z_exponent=0.2, axis_phase_exponent=0.1))]
+
+
+def dd_doors(cirq):
+    """two-qubit Clifford gates (both orientations of the asymmetric one): a Pauli on one qubit is pulled through them onto the other"""
+    return [('CZ', lambda a, b: cirq.CZ(a, b)), ('CNOT', lambda a, b: cirq.CNOT(a, b)), ('CNOT reversed', lambda a, b: cirq.CNOT(b, a)),
+            ('ISWAP', lambda a, b: cirq.ISWAP(a, b)), ('SWAP', lambda a, b: cirq.SWAP(a, b))]
+
+
+def dd_grid(cirq):
+    """Deterministic part of the 'inserted pulse travels to another qubit' class for add_dynamical_decoupling: qubit a idles for 1-3
+    moments inside its busy range (pulses go there; an odd number leaves a Pauli to carry along), then a two-qubit Clifford gate (every
+    kind, both orientations) or a chain of two of them takes the carried Pauli to another qubit, where the next operation is one that
+    no Pauli can be pulled through: every kind of non-Clifford single-qubit gate, a measurement, a classically controlled gate, a
+    non-Clifford two-qubit gate; with / without a single-qubit Clifford gate or an idle moment in between, with the wall on one or on
+    both lines.  The circuits end in a layer of H.  Returns (name, circuit)."""
+    a, b, c = cirq.LineQubit.range(3)
+    M, H = cirq.Moment, cirq.H
+    walls, doors = dd_walls(cirq), dd_doors(cirq)
+    out = []
+    for (dn, door), (wn, wall), idle in itertools.product(doors, walls, (1, 2)):
+        out.append((f'idle x{idle}; {dn}; {wn} on the partner',
+                    cirq.Circuit([M(H(a), H(b))] + [M(H(b))] * idle + [M(door(a, b)), M(wall(b)), M(H(a), H(b))])))
+    for i, (dn, door) in enumerate(doors):
+        for j in (0, 1):
+            (d2n, door2), (wn, wall) = doors[(i + 1 + 2 * j) % len(doors)], walls[(i + 2 * j) % len(walls)]
+            out.append((f'idle x1; {dn}; {d2n}; {wn} at the end of the chain',
+                        cirq.Circuit(M(H(a), H(b), H(c)), M(H(b), H(c)), M(door(a, b)), M(door2(b, c)), M(wall(c)), M(H(a), H(b), H(c)))))
+    phxz = walls[3][1]
+    out += [
+        ('idle x3; CNOT; walls on both lines', cirq.Circuit([M(H(a), H(b))] + [M(cirq.S(b))] * 3 + [M(cirq.CNOT(a, b)), M(cirq.T(a), cirq.X(b) ** 0.25), M(H(a), H(b))])),
+        ('idle x1; CNOT reversed; S on the partner; wall', cirq.Circuit(M(H(a), H(b)), M(H(b)), M(cirq.CNOT(b, a)), M(cirq.S(b)), M(cirq.Y(b) ** -0.3), M(H(a), H(b)))),
+        ('idle x1; ISWAP; idle partner; wall', cirq.Circuit(M(H(a), H(b)), M(H(b)), M(cirq.ISWAP(a, b)), M(H(a)), M(phxz.on(b), cirq.S(a)), M(H(a), H(b)))),
+        ('idle x1; CNOT; non-Clifford two-qubit gate', cirq.Circuit(M(H(a), H(b), H(c)), M(H(b), H(c)), M(cirq.CNOT(a, b)), M(cirq.CZ(b, c) ** 0.5), M(H(a), H(b), H(c)))),
+        ('idle x1; CNOT; measurement of the partner', cirq.Circuit(M(H(a), cirq.X(b) ** 0.3), M(cirq.S(b)), M(cirq.CNOT(b, a)), M(cirq.measure(b, key='m')), M(H(a)), M(cirq.T(a)))),
+        ('idle x1; CNOT; classically controlled gate on the partner',
+         cirq.Circuit(M(H(a), H(b), H(c)), M(cirq.measure(c, key='k'), H(b)), M(cirq.CNOT(a, b)), M(cirq.Y(b).with_classical_controls('k')), M(H(a), H(b)))),
+        ('both qubits idle in turn; CZ; walls', cirq.Circuit(M(H(a), H(b)), M(cirq.S(b)), M(cirq.S(a)), M(cirq.CZ(a, b)), M(cirq.X(a) ** 0.25, cirq.Y(b) ** -0.3), M(H(a), H(b)))),
+    ]
+    return out
+
+
+def gen_dd(cirq, rng, measured=False):
+    """Clifford-dense sparse circuits for add_dynamical_decoupling: layers of single-qubit operations (idle / Clifford / non-Clifford)
+    and layers of two-qubit gates (mostly Clifford), so that pulses inserted in idle slots are pulled through chains of Clifford gates
+    (onto other qubits) before they meet a gate they cannot pass; measured=True adds a mid-circuit measurement, gates controlled by its
+    record and terminal measurements."""
+    n = rng.randint(2, 4)
+    qs = cirq.LineQubit.range(n)
+    cliff1 = [cirq.H, cirq.S, cirq.S ** -1, cirq.X, cirq.Y, cirq.Z, cirq.X ** 0.5, cirq.Y ** -0.5, cirq.PhasedXZGate(x_exponent=0.5, z_exponent=0.5, axis_phase_exponent=-0.5)]
+    cliff2 = [cirq.CZ, cirq.CNOT, cirq.ISWAP, cirq.SWAP, cirq.CZ, cirq.CNOT, cirq.ISWAP ** -1]
+    other2 = [cirq.CZ ** 0.5, cirq.SQRT_ISWAP, cirq.CZ ** gates.draw_exp(rng)]
+    moments = []
+    depth = rng.randint(5, 9)
+    mid = rng.randint(1, depth - 2) if measured else None
+    have_key = False
+    for d in range(depth):
+        ops_ = []
+        free = list(qs)
+        rng.shuffle(free)
+        if d == mid:
+            ops_.append(cirq.measure(free.pop(), key='k'))
+        elif rng.random() < 0.45:
+            while len(free) >= 2 and rng.random() < 0.8:
+                x, y = free.pop(), free.pop()
+                ops_.append((rng.choice(cliff2) if rng.random() < 0.85 else rng.choice(other2)).on(x, y))
+            free = [q for q in free if rng.random() < 0.3]
+        for q in free:
+            r = rng.random()
+            if r < 0.4:
+                continue
+            if r < 0.75:
+                ops_.append(rng.choice(cliff1).on(q))
+            elif r < 0.85 and have_key:
+                ops_.append(rng.choice([cirq.X, cirq.Z, cirq.H]).on(q).with_classical_controls('k'))
+            else:
+                ops_.append(rng.choice([w for _, w in dd_walls(cirq)] + [cirq.Z ** 0.3, cirq.H ** 0.5, cirq.X ** gates.draw_exp(rng)]).on(q))
+        moments.append(cirq.Moment(ops_))
+        have_key = have_key or d == mid
+    if measured:
+        moments.append(cirq.Moment([cirq.measure(*rng.sample(list(qs), rng.randint(1, 2)), key='m')]))
+    return cirq.Circuit(moments)
+
+
+def keypath_grid(cirq):
+    """Deterministic part of the 'measurement keys that differ only by their path' class: sub-circuits that measure key 'a' on the
+    same qubit mid-circuit, repeated with repetition ids ('0:a', '1:a', ...), placed twice under different key paths ('A:a', 'B:a'),
+    nested (paths of depth two), next to 'a' repeated without ids; with feed-forward inside the sub-circuit, with
+    the record of one repetition read outside; one- and two-qubit measurements; and measurements that are terminal inside path-
+    qualified sub-circuits.  Every transformer that accepts measurements and sub-circuits gets them.  Returns (name, circuit)."""
+    q0, q1 = cirq.LineQubit.range(2)
+    M, X, H = cirq.Moment, cirq.X, cirq.H
+    cop = cirq.CircuitOperation
+    toggle = cirq.FrozenCircuit(M(cirq.measure(q0, key='a')), M(X(q0)))
+    feed = cirq.FrozenCircuit(M(cirq.measure(q0, key='a')), M(X(q1).with_classical_controls('a')), M(X(q0)))
+    turn = cirq.FrozenCircuit(M(cirq.measure(q0, key='a')), M(X(q0) ** 0.5), M(cirq.CZ(q0, q1)), M(H(q1)))
+    pair = cirq.FrozenCircuit(M(cirq.measure(q0, q1, key='a', invert_mask=(True,))), M(X(q0)), M(cirq.CNOT(q0, q1)))
+    tail = M(cirq.measure(q0, key='z'), cirq.measure(q1, key='b'))
+    return [
+        ('repetition ids, the measured qubit flipped in between', cirq.Circuit(M(X(q0) ** 0.3, H(q1)), M(cop(toggle, repetitions=2, use_repetition_ids=True)), M(H(q0)), tail)),
+        ('repetition ids, feed-forward inside', cirq.Circuit(M(cirq.Y(q0) ** 0.4), M(cop(feed, repetitions=3, use_repetition_ids=True)), tail)),
+        ('two sub-circuits under different key paths', cirq.Circuit(M(H(q0)), M(cop(feed).with_key_path(('A',))), M(cop(feed).with_key_path(('B',))), tail)),
+        ('record of one repetition read outside', cirq.Circuit(M(H(q0)), M(cop(toggle, repetitions=2, use_repetition_ids=True)), M(X(q1).with_classical_controls('0:a')), M(H(q1)),
+                                                               M(cirq.Z(q1).with_classical_controls('1:a')), M(H(q1)), tail)),
+        ('key paths of depth two', cirq.Circuit(M(X(q0) ** 0.5), M(cop(cirq.FrozenCircuit(M(cop(turn).with_key_path(('A',))), M(cop(toggle).with_key_path(('B',))))).repeat(2, use_repetition_ids=True)),
+                                                M(cirq.measure(q0, q1, key='z')))),
+        ('repeated key without ids, then path keys of the same name', cirq.Circuit(M(H(q0)), M(cop(toggle, repetitions=2, use_repetition_ids=False)), M(X(q0) ** 0.5),
+                                                                                   M(cop(turn, repetitions=2, use_repetition_ids=True)), tail)),
+        ('two-qubit measurement with repetition ids', cirq.Circuit(M(H(q0), X(q1) ** 0.3), M(cop(pair, repetitions=2, use_repetition_ids=True)), M(H(q0)), tail)),
+        ('terminal measurements inside sub-circuits under different key paths',
+         cirq.Circuit(M(H(q0)), M(cirq.CNOT(q0, q1)), M(cirq.S(q0), X(q1) ** 0.5), M(cop(cirq.FrozenCircuit(cirq.measure(q0, key='a'))).with_key_path(('A',)),
+                                                                                     cop(cirq.FrozenCircuit(cirq.measure(q1, key='a'))).with_key_path(('B',))))),
+    ]
+
+
 def gen_absorb(cirq, rng):
     """Short circuits dense in what the ejecting transformers hold (PhasedXZ gates, Pauli / PhasedX flips, phases) and in what they
     cannot carry it across (swap-like gates, sub-circuits, gates opaque to phases), so that 'holder; barrier; phase; end' and its
@@ -921,6 +1055,8 @@ def gen_circuit(cirq, rng, kinds, tags=True, nest=True, mods=None):
         c = gen_absorb(cirq, rng)
     elif kind in ('idle', 'idle:measured'):
         c = gen_idle(cirq, rng, measured=kind.endswith('measured'))
+    elif kind in ('dd', 'dd:measured'):
+        c = gen_dd(cirq, rng, measured=kind.endswith('measured'))
     elif kind.startswith('gauge:'):
         parts = kind.split(':')
         tw = gauge_targets(cirq, rng, mods, parts[1])
@@ -1094,10 +1230,12 @@ def make_configs(cirq, mods):
     C.append(Cfg('insertion_sort_transformer', '', ctx_call(t.insertion_sort_transformer), 'semantic', kinds=U + ('alphabet', 'alphabet'), perm=True, n=1.5))
     C[-1].placement = True
     dd_deep = raises_documented(ValueError, lambda c, deep, ign: deep)
+    DD = ('dd', 'dd', 'dd:measured', 'layers', 'unitary', 'layers-measured')
     for schema in ('DEFAULT', 'XX_PAIR', 'X_XINV', 'YY_PAIR', 'Y_YINV'):
-        C.append(Cfg('add_dynamical_decoupling', f'schema={schema}', ctx_call(t.add_dynamical_decoupling, schema=schema), 'semantic', kinds=('layers', 'unitary', 'layers-measured'), expect_raise=dd_deep, n=0.3, ignore=False, nest=False))
-    C.append(Cfg('add_dynamical_decoupling', 'all moments', ctx_call(t.add_dynamical_decoupling, single_qubit_gate_moments_only=False), 'semantic', kinds=('layers', 'unitary', 'layers-measured'), expect_raise=dd_deep, n=0.6, ignore=False, nest=False))
-    C.append(Cfg('add_dynamical_decoupling', 'custom sequence', ctx_call(t.add_dynamical_decoupling, schema=(cirq.X, cirq.Y, cirq.X, cirq.Y)), 'semantic', kinds=('layers', 'unitary'), expect_raise=dd_deep, n=0.3, ignore=False, nest=False))
+        C.append(Cfg('add_dynamical_decoupling', f'schema={schema}', ctx_call(t.add_dynamical_decoupling, schema=schema), 'semantic', kinds=DD, expect_raise=dd_deep, n=0.4, ignore=False, nest=False))
+    C.append(Cfg('add_dynamical_decoupling', 'all moments', ctx_call(t.add_dynamical_decoupling, single_qubit_gate_moments_only=False), 'semantic', kinds=DD, expect_raise=dd_deep, n=0.6, ignore=False, nest=False))
+    C.append(Cfg('add_dynamical_decoupling', 'custom sequence', ctx_call(t.add_dynamical_decoupling, schema=(cirq.X, cirq.Y, cirq.X, cirq.Y)), 'semantic', kinds=('dd', 'layers', 'unitary'), expect_raise=dd_deep, n=0.3, ignore=False, nest=False))
+    C.append(Cfg('add_dynamical_decoupling', 'custom sequence X,Z,Y', ctx_call(t.add_dynamical_decoupling, schema=(cirq.X, cirq.Z, cirq.Y)), 'semantic', kinds=('dd', 'layers', 'unitary'), expect_raise=dd_deep, n=0.3, ignore=False, nest=False))
     C.append(Cfg('optimize_for_target_gateset', 'CZTargetGateset', ctx_call(t.optimize_for_target_gateset, gateset=cirq.CZTargetGateset()), 'semantic', kinds=('unitary', 'terminal'), n=0.4))
     C.append(Cfg('optimize_for_target_gateset', 'SqrtIswapTargetGateset', ctx_call(t.optimize_for_target_gateset, gateset=cirq.SqrtIswapTargetGateset()), 'semantic', kinds=('unitary', 'terminal'), n=0.3))
     # ---- gauge compiling ----
@@ -1429,7 +1567,7 @@ def stabilizer_effect_without_tableau_action(cirq, circuit):
     """an operation that claims a stabilizer effect but cannot act on a Clifford tableau (defect of the protocol pair, C13)"""
     for op in circuit.all_operations():
         try:
-            if op.gate is not None and cirq.has_stabilizer_effect(op):
+            if op.gate is not None and cirq.has_unitary(op) and not cirq.control_keys(op) and cirq.has_stabilizer_effect(op):
                 cirq.CliffordGate.from_op_list([cirq.inverse(op)], list(op.qubits))
         except Exception:
             return True
@@ -1687,12 +1825,15 @@ def grid_stream(ctx, cirq, configs, checks, case_no):
     the ignored-tag grid (tags_to_ignore set, a tagged operation between operations the transformer would combine, commute or
     drop) for every configuration that takes tags_to_ignore; the holder / barrier / phase grid for the ejecting configurations
     (tags_to_ignore set); the nested grid (deep=True wherever the configuration takes it, the argument a mutable cirq.Circuit) for
-    every configuration that accepts sub-circuits."""
+    every configuration that accepts sub-circuits; the key-path grid (keys that differ only by their path) for every configuration
+    that accepts measurements and sub-circuits; the idle / Clifford chain / wall grid for the dynamical-decoupling configurations."""
     grid = measlike_grid(cirq)
     ign_grid = ignored_grid(cirq)
     key_grid = keyflow_grid(cirq)
     absorb = absorb_grid(cirq)
     nested = nested_grid(cirq)
+    dd = dd_grid(cirq)
+    keypaths = keypath_grid(cirq)
     for cfg in configs:
         kinds = set(cfg.kinds)
         if kinds & {'gmeasured', 'ejectable-gmeasured', 'pmeasured', 'gmeasured-nocc'}:
@@ -1726,6 +1867,16 @@ def grid_stream(ctx, cirq, configs, checks, case_no):
             for name, circuit, deep in absorb:
                 case_no += 1
                 run_case(ctx, cirq, cfg, circuit.copy(), 'grid:absorb:' + name, deep and cfg.deep, cfg.ignore, checks, case_no)
+        if cfg.name == 'add_dynamical_decoupling' and cfg.variant != 'custom sequence':       # that one is the DEFAULT sequence given as a tuple
+            for name, circuit in dd:
+                case_no += 1
+                run_case(ctx, cirq, cfg, circuit.copy(), 'grid:dd:' + name, False, False, checks, case_no)
+        if cfg.nest and cfg.call is not None and any(('measured' in k or 'terminal' in k) for k in kinds):
+            for gi, (name, circuit) in enumerate(keypaths):
+                if cfg.cat == 'reorder' and gi % 2:
+                    continue            # "move, never change" configurations are decided by the exact trace validator: half the grid
+                case_no += 1
+                run_case(ctx, cirq, cfg, circuit.copy(), 'grid:keypath:' + name, cfg.deep and gi % 2 == 1, False, checks, case_no)
         if cfg.nest and cfg.call is not None:
             takes_unitary = bool(kinds & {'unitary', 'layers', 'ejectable', 'alphabet'})
             takes_measured = any(('measured' in k or 'terminal' in k) for k in kinds)
@@ -2186,7 +2337,7 @@ def run(ctx):
                 'tags (ignored / innocent), empty moments, nested (repeated, tagged) CircuitOperations, qudits for the reorder-only family; '
                 'measurement-like operations of every kind (Pauli-basis measurements X/Y/Z, +/-, 1-2 qubits, keyed Kraus / mixed-unitary channels) mid-circuit and terminal; '
                 'circuits over 2-4 distinct gates in many placements; fixed grids (measurement-like neighbourhoods x every measuring configuration, placement grid x insertion sort, '
-                'ignored-tag barrier grid x every configuration taking tags_to_ignore, consumed-record grid x every measuring configuration, holder/barrier/phase grid x ejecting configurations, nested grid (mutable argument, deep=True) x every configuration accepting sub-circuits); gauge targets in every accepted representation '
+                'ignored-tag barrier grid x every configuration taking tags_to_ignore, consumed-record grid x every measuring configuration, holder/barrier/phase grid x ejecting configurations, nested grid (mutable argument, deep=True) x every configuration accepting sub-circuits, key-path grid x every measuring configuration accepting sub-circuits, idle / Clifford chain / wall grid x every dynamical-decoupling configuration); Clifford-dense sparse circuits for dynamical decoupling; sub-circuits whose keys get repetition ids or a key path; gauge targets in every accepted representation '
                 '(exponent modulo period, global shift) x every selector branch x {call, as_sweep}; IdleMomentsGauge: idle-window shapes x {pauli, clifford, inv_clifford, custom gauges} x every gauge index at every window, '
                 'sparse generated circuits (idle runs of 1-5 moments) x {min_length, gauge_beginning, gauge_ending, tags_to_ignore}; '
                 'non-trivial = >=2 operations and the output differs from the input; distinct by (transformer, options, circuit)')
